@@ -2,7 +2,9 @@
 (* Provenance family (C15): transform-free programs with recursion, mutual recursion, negation,
    inequalities and equalities (between variables, with a constant, with a function expression). *)
 EXTENDS VocabE1
-ProvLits == E1Lits \cup { <<"eq", X, Y>>, <<"eq", Y, N2>>, <<"eq", Y, Ap("fn:plus", <<X, N1>>)>> }
+ProvLits == E1Lits \cup { <<"eq", X, Y>>, <<"eq", Y, N2>>, <<"eq", Y, Ap("fn:plus", <<X, N1>>)>>,
+                          \* comparisons whose operand is a function application (they must be evaluated, not just substituted)
+                          <<"ne", Y, Ap("fn:plus", <<X, N1>>)>>, <<"ne", Ap("fn:plus", <<Y, N1>>), X>> }
 UsesFn(r) == \E i \in DOMAIN r.b : r.b[i][1] = "eq" /\ (IsAp(r.b[i][2]) \/ IsAp(r.b[i][3]))
 HasIdb(r) == \E i \in DOMAIN r.b : r.b[i][1] = "pos" /\ r.b[i][2].p \in {"p", "q"}
 KeepProv(r) == Safe(r) /\ ~(UsesFn(r) /\ HasIdb(r))
